@@ -687,7 +687,14 @@ func main() {
 		}
 		sort.Strings(ids)
 		for _, id := range ids {
-			fmt.Println(id)
+			line := id + " [" + plans[id].Level + "]"
+			for _, st := range plans[id].Stages {
+				line += " " + st.Engine + "/" + st.Mode
+				if st.Race {
+					line += "(race)"
+				}
+			}
+			fmt.Println(line)
 		}
 	case "replay":
 		if len(os.Args) < 3 {
